@@ -40,8 +40,13 @@ def gen_template(rng, i):
     for _ in range(n):
         r = rng.random()
         if rng.random() < 0.12:
-            r = rng.choice([0.405, 0.42, 0.432, 0.436, 0.439])       # the narrow special families below, each with a real share
-        if r < 0.15:
+            r = rng.choice([0.405, 0.42, 0.432, 0.436, 0.439, -1.0])       # the narrow special families below, each with a real share
+        if r < 0:
+            # a parameter that occurs ONLY inside a list-valued keyword argument, next to plain values
+            p = g.fresh(rng.choice(["a", "ph", "lst"]))
+            g.params.append(p)
+            lines.append(rng.choice(["MZgate(0.5, phases=[{%s}, 0.3, -{%s} / 4], n=3) | [0, 1]", "Kgate(l=[1, {%s}], m=[2 * {%s} + 1]) | 0", "Sgate(0.25, sel=[{%s}]) | 1  # {%s}"]) % (p, p))
+        elif r < 0.15:
             # scalar initialiser with a parameter
             nm = g.fresh()
             e = g.expr(2, None, syms=True)
